@@ -11,6 +11,8 @@ interpreted on them:
    empty text) and every context size 0..3:  apply_patch(a, make_patch(a, b)) is the line sequence of b, and
    apply_patch(b, make_patch(a, b), revert=True) is the line sequence of a.  The hunks are those of the stdlib difflib run on
    placeholder tokens for the opaque lines (difflib is the oracle side, not repository code).
+   plus a fixed family of 13-line texts (one line replaced / deleted / inserted at lines 10..13, two hunks, last line without newline) so that
+   hunk headers with numbers of more than one digit and with an omitted count are read (contexts 0, 1, 3)
  3 apply_patch rejects a hunk header it cannot parse and a hunk that starts before the current position or beyond the source
  4 Protocol.diff / Protocol.patch wiring: the missing file is the empty text on both sides, the caller's context size reaches
    make_patch, an empty diff leaves the text as it is, a non-empty one goes through apply_patch(text, diff)
@@ -279,9 +281,22 @@ def run(repo: Repo, chk: Check) -> None:
     wiring_ok = True
     wiring_detail = ''
     marker_ok = True
-    for (ta, tb) in itertools.product(texts, texts):
+    # texts long enough for hunk headers with numbers of two digits (a single changed line at 10.., a deletion, an insertion): the header
+    # parser has to read `@@ -11 +11 @@`, `@@ -10,0 +11 @@`, `@@ -8,5 +8,5 @@` as the numbers they are
+    base = tuple(f'l{i}' for i in range(1, 14))
+    long_pairs = []
+    for k in (9, 10, 11, 12):
+        long_pairs.append(((base, True), (base[:k] + ('w',) + base[k + 1:], True)))          # line k+1 replaced
+        long_pairs.append(((base, True), (base[:k] + base[k + 1:], True)))                   # line k+1 deleted
+        long_pairs.append(((base, True), (base[:k] + ('w',) + base[k:], True)))              # a line inserted before line k+1
+    long_pairs.append(((base, True), (('w',) + base[1:11] + ('v',) + base[12:], True)))     # two hunks, the second one at 12
+    long_pairs.append(((base, False), (base[:12] + ('w',), False)))                          # last line, no final newline
+    chk.note('long_text_pairs', len(long_pairs))
+    for (ta, tb) in itertools.chain(itertools.product(texts, texts), long_pairs):
         a, b = mk_text(*ta), mk_text(*tb)
         for ctx in CTX:
+            if len(ta[0]) > 9 and ctx == 2:
+                continue
             if ctx > 1 and max(len(ta[0]), len(tb[0])) <= 1 and ctx != 3:
                 continue  # no line can be context: sizes 2.. behave alike; keep 3 (the Protocol.diff default)
             hooks = DiffHooks()
